@@ -24,7 +24,7 @@ RULE = ("bases: generated files (conformant tagged headers, numeric data, WRAP N
         "for generated files, around every field; LF->CRLF; final newline dropped; WRAP=YES data re-wrapped at every token boundary "
         "with widths 1..all (also ragged); data re-delimited with the declared delimiter SPACE/TAB/COMMA with and without padding "
         "blanks. Each pair is read with the default engine and with engine='normal'. distinct = distinct (base, transformation "
-        "multiset, parameters); non-trivial = transformed text differs from the base and the base has >= 2 data rows Added later: noise bursts of 20..45 lines, runs of tabs, decimal-comma data, a text column in a quarter of the bases, literal ~Parameter pairs with 0 / 1 blank before the colon. Hunter round 2: a tab before the '..' of 'DEPT  ..1IN', 0 / 1 blank after the colon before a minute-like description.")
+        "multiset, parameters); non-trivial = transformed text differs from the base and the base has >= 2 data rows Added later: noise bursts of 20..45 lines, runs of tabs, decimal-comma data, a text column in a quarter of the bases, literal ~Parameter pairs with 0 / 1 blank before the colon. Hunter round 2: a tab before the '..' of 'DEPT  ..1IN', 0 / 1 blank after the colon before a minute-like description. Round 8: base / transformed pairs written as UTF-8 files and read by path (non-ASCII header text moved across the 4000 sampled bytes).")
 ASSUMPTIONS = [
     "re-delimiting is applied to generated files only (numeric tokens, decimal-comma tokens, and a text column in a quarter of the bases); the DLM item itself is excluded from the comparison of a re-delimited pair",
     "noise lines are inserted inside sections (after their title), not before the first section and not inside ~Other, whose lines are content",
